@@ -437,6 +437,11 @@ pub fn walk(
             Ok(Ok(b)) => b,
             _ => return,
         };
+        if prop == Prop::C06 && txt_res.is_ok() {
+            // the text applier's board as it stands right after the move (its cached king squares
+            // are what the check test trusts), judged before any resynchronisation
+            check_is_check(&np, &txt, "text applier, right after the move", &o_txt2, acc);
+        }
         let want_key = zobrist_from_scratch(&want, h);
         if prop == Prop::C05 {
             if let Ok(()) = &txt_res {
